@@ -28,7 +28,23 @@ DimOf(j) == Norm([k \in {p[1] : p \in SeqSetX(j)} |-> (CHOOSE p \in SeqSetX(j) :
 Arith == {"+", "-", "*", "/"}
 
 (* one sample: the recorded operation applied to the recorded operands gives the recorded value *)
+MaxV(a, b) == IF a >= b THEN a ELSE b
+MinV(a, b) == IF a <= b THEN a ELSE b
+(* the other recorded operators (s.f names the function; operands and value in base units): element-wise ceil of a count   *)
+(* (thousandths), absolute value, negation, the larger / smaller of two values, and the sum / mean / maximum of a series     *)
+(* (aggregated by the harness over the whole recorded operand)                                                             *)
+OtherOK(s) ==
+    CASE s.f = "ceil" -> /\ s.N >= s.L - 1 /\ s.N - s.L <= 1001
+                         /\ (s.N % 1000 <= 1 \/ s.N % 1000 >= 999)
+      [] s.f = "abs"  -> AbsV(AbsV(s.L) - s.N) <= 3
+      [] s.f = "neg"  -> AbsV(s.L + s.N) <= 3
+      [] s.f = "max2" -> AbsV(MaxV(s.L, s.R) - s.N) <= 3
+      [] s.f = "min2" -> AbsV(MinV(s.L, s.R) - s.N) <= 3
+      [] s.f = "agg"  -> AbsV(s.L - s.N) <= 3
+      [] OTHER -> TRUE
+
 SampleOK(op, s) ==
+    IF "f" \in DOMAIN s THEN OtherOK(s) ELSE
     CASE op = "+" -> AbsV(s.L + s.R - s.N) <= 3
       [] op = "-" -> AbsV(s.L - s.R - s.N) <= 3
       [] op = "*" -> AbsV(s.L * s.R - s.N) <= 2 + AbsV(s.N) \div 400        \* 4-digit mantissas: 2.5e-3 relative
@@ -44,7 +60,7 @@ DimOK(op, n, l, r) ==
 CheckTree(e) ==
     LET nodes == e.nodes
         bad == {<<"value-not-reproduced-by-" \o nodes[k].op, k>> : k \in {x \in DOMAIN nodes :
-                    nodes[x].op \in Arith /\ nodes[x].l # 0 /\ nodes[x].r # 0 /\
+                    nodes[x].l # 0 /\
                     \E m \in DOMAIN nodes[x].smp : ~SampleOK(nodes[x].op, nodes[x].smp[m])}}
           \cup {<<"wrong-dimension-for-" \o nodes[k].op, k>> : k \in {x \in DOMAIN nodes :
                     nodes[x].op \in Arith /\ nodes[x].l # 0 /\ nodes[x].r # 0 /\
